@@ -6,7 +6,7 @@
 (* (vnacal_new(3)).                                                        *)
 (*                                                                         *)
 (* A configuration is a record                                             *)
-(*   [ty, p, k, topo, nu, lim, pt, et, me]                                 *)
+(*   [ty, p, k, topo, nu, lim, pt, et, me, ko]                             *)
 (* ty   error-term type                                                    *)
 (* p    ports;  k  smaller dimension (k = p: p x p; else see RowsOf)       *)
 (* topo family of the standard set (below)                                 *)
@@ -14,6 +14,15 @@
 (* lim  iteration limit                                                    *)
 (* pt   parameter tolerance 10^-pt, et error-term tolerance 10^-et         *)
 (* me   1 = measurement-error modelling on (vnacal_new_set_m_error)        *)
+(* ko   order in which the application creates its parameters (the "cal    *)
+(*      kit") relative to the order in which the standards use them:       *)
+(*      "use" in order of first use; "rev" in the opposite order; "hi8"    *)
+(*      (nine or more parameters) the one used first is created ninth, the *)
+(*      one used second first, ... and every parameter occupies two        *)
+(*      handles, so that handles sixteen apart are used high before low;   *)
+(*      "pad" in order of use after thirteen parameters that stay unused.  *)
+(*      Handle numbers are the library's business (vnacal_parameter(3)):   *)
+(*      nothing may depend on them                                         *)
 (*                                                                         *)
 (* Standard-set families.  "Known base" = short-open, open-short,          *)
 (* match-match, through, one random known double reflect (and random known *)
@@ -70,6 +79,15 @@
 (*         "recovered" observation is the residual of the error terms      *)
 (*         written by vnacal_save in the documented equation for an        *)
 (*         independent simulated device                                    *)
+(*   KIT   multi-line TRL with a larger kit: a line with unknown           *)
+(*         transmission, the unknown reflect on port 1, the through, four  *)
+(*         more unknown lines, three lines with known transmission (two    *)
+(*         scalar, one a vector on its own grid) and finally the SAME      *)
+(*         unknown reflect on port 2 as a separate standard -- more than   *)
+(*         eight distinct parameters in one vnacal_new_t, one of them      *)
+(*         referenced by standards both early and late (6 unknowns, 38     *)
+(*         equations for 7 + 6 unknowns; the reflect being the same on     *)
+(*         both ports is what fixes the last degree of freedom, as in TRL) *)
 (*   PRIOR one port: short, open and a reflect whose parameter is          *)
 (*         correlated with a known value (its truth): the error terms are  *)
 (*         exactly determined and the parameter is held by its prior only  *)
@@ -81,7 +99,8 @@ EightTen == {"T8", "U8", "TE10", "UE10"}
 Sixteen  == {"T16", "U16"}
 Topos    == {"TRL", "TRLX", "SOLR", "REFL", "SREF", "LINE", "CORR", "FEW",
              "WEAK", "PRIOR", "TRM", "TRLM", "SHORT1", "CORRV", "PRIORV",
-             "RLINE"}
+             "RLINE", "KIT"}
+KitOrders == {"use", "rev", "hi8", "pad"}
 TTypes   == {"T8", "TE10", "T16"}
 Limits   == {1, 2, 3, 5, 30, 100}
 TolExps  == {4, 6, 8, 10, 12}
@@ -94,6 +113,7 @@ UnknownsOf(topo) ==
       [] topo \in {"SOLR", "PRIOR", "PRIORV"} -> {1}
       [] topo \in {"CORR", "WEAK", "SHORT1"} -> {2, 3}
       [] topo \in {"CORRV", "RLINE"} -> {1, 2}
+      [] topo = "KIT"             -> {6}
       [] OTHER                    -> {1, 2, 3}
 
 (* Dimensions: p ports; k is the smaller dimension of the calibration.     *)
@@ -107,7 +127,8 @@ ColsOf(c) == IF c.k = c.p \/ c.ty \in TTypes THEN c.p ELSE c.k
 Shape(ty, p, k, topo) ==
     /\ ty \in Types /\ p \in 1..3 /\ k \in 1..p /\ topo \in Topos
     /\ (topo = "RLINE") <=> (k < p)
-    /\ topo \in {"TRL", "TRLX", "FEW", "TRM", "TRLM"} => ty \in EightTen /\ p = 2
+    /\ topo \in {"TRL", "TRLX", "FEW", "TRM", "TRLM", "KIT"} =>
+           ty \in EightTen /\ p = 2
     /\ topo = "SHORT1" => (p = 1 \/ (p = 2 /\ ty \in EightTen))
     /\ topo = "WEAK" => p <= 2
     /\ topo \in {"PRIOR", "PRIORV"} => p = 1
@@ -119,6 +140,7 @@ IsConfig(c) ==
     /\ Shape(c.ty, c.p, c.k, c.topo)
     /\ c.nu \in UnknownsOf(c.topo)
     /\ (c.topo = "RLINE" /\ c.nu = 2) => c.p = 3
+    /\ c.ko \in KitOrders
     /\ c.lim \in Limits
     /\ <<c.pt, c.et>> \in TolPairs
     /\ c.me \in {0, 1}
@@ -127,9 +149,11 @@ IsConfig(c) ==
     /\ (c.topo = "SREF" /\ c.ty \in Sixteen /\ c.p > 1) => c.me = 0
 
 Configs ==
-    {c \in [ty : Types, p : 1..3, k : 1..3, topo : Topos, nu : 1..3,
-            lim : Limits, pt : TolExps, et : TolExps, me : {0, 1}] :
-        (c.k = c.p \/ c.topo = "RLINE") /\ IsConfig(c)}
+    {c \in [ty : Types, p : 1..3, k : 1..3, topo : Topos, nu : {1, 2, 3, 6},
+            lim : Limits, pt : TolExps, et : TolExps, me : {0, 1},
+            ko : KitOrders] :
+        (c.k = c.p \/ c.topo = "RLINE") /\ (c.nu = 6 <=> c.topo = "KIT") /\
+        IsConfig(c)}
 
 (* vnacal_new(3): "two-port TRL ... has an analytical solution"; "if we're *)
 (* modeling measurement errors the solution is always iterative"           *)
